@@ -135,6 +135,31 @@ func needsInitCheck(md protoreflect.MessageDescriptor) bool {
 }
 
 func needsInitCheckLocked(md protoreflect.MessageDescriptor) (has bool) {
+	var provisional []protoreflect.MessageDescriptor
+	has, _ = needsInitCheckAtDepth(md, 0, &provisional)
+	for _, pmd := range provisional {
+		if has {
+			// Not known yet: pmd is answered when it is asked for itself.
+			needsInitCheckMap.Delete(pmd)
+		} else {
+			// Nothing reachable from md needs init checks.
+			needsInitCheckMap.Store(pmd, false)
+		}
+	}
+	return has
+}
+
+// noCycleCut is the cut depth reported when the answer did not rely on any
+// message that is still being descended into.
+const noCycleCut = int(^uint(0) >> 1)
+
+// needsInitCheckAtDepth additionally reports the smallest depth of a message
+// that is still being descended into and at which a cycle was cut to obtain
+// the answer. A negative answer that relied on a message above md is only
+// provisional: that message may turn out to need init checks once its
+// remaining fields are visited. Such an answer is not cached; md is added
+// to provisional instead and settled when the whole traversal is done.
+func needsInitCheckAtDepth(md protoreflect.MessageDescriptor, depth int, provisional *[]protoreflect.MessageDescriptor) (has bool, cutDepth int) {
 	if v, ok := needsInitCheckMap.Load(md); ok {
 		// If has is true, we've previously determined that this message
 		// needs init checks.
@@ -146,18 +171,30 @@ func needsInitCheckLocked(md protoreflect.MessageDescriptor) (has bool) {
 		// message graph. In this case, it is safe to return false: If
 		// the message does have required fields, we'll detect them later
 		// in the graph traversal.
-		has, ok := v.(bool)
-		return ok && has
+		switch v := v.(type) {
+		case bool:
+			return v, noCycleCut
+		case int:
+			return false, v // still being descended into, at depth v
+		default:
+			return false, 0 // provisional answer of this traversal
+		}
 	}
-	needsInitCheckMap.Store(md, struct{}{}) // avoid cycles while descending into this message
+	needsInitCheckMap.Store(md, depth) // avoid cycles while descending into this message
+	cutDepth = noCycleCut
 	defer func() {
+		if !has && cutDepth < depth {
+			needsInitCheckMap.Store(md, struct{}{})
+			*provisional = append(*provisional, md)
+			return
+		}
 		needsInitCheckMap.Store(md, has)
 	}()
 	if md.RequiredNumbers().Len() > 0 {
-		return true
+		return true, noCycleCut
 	}
 	if md.ExtensionRanges().Len() > 0 {
-		return true
+		return true, noCycleCut
 	}
 	for i := 0; i < md.Fields().Len(); i++ {
 		fd := md.Fields().Get(i)
@@ -166,9 +203,16 @@ func needsInitCheckLocked(md protoreflect.MessageDescriptor) (has bool) {
 			fd = fd.MapValue()
 		}
 		fmd := fd.Message()
-		if fmd != nil && needsInitCheckLocked(fmd) {
-			return true
+		if fmd == nil {
+			continue
+		}
+		h, cut := needsInitCheckAtDepth(fmd, depth+1, provisional)
+		if h {
+			return true, noCycleCut
+		}
+		if cut < cutDepth {
+			cutDepth = cut
 		}
 	}
-	return false
+	return false, cutDepth
 }
